@@ -171,7 +171,7 @@ def tname(t):
 def build(t):
     import xobjects as xo
 
-    c = _cache.get(t)
+    c = _cache.get((t, DECL[0]))
     if c is not None:
         return c
     k = t[0]
@@ -179,6 +179,20 @@ def build(t):
         c = getattr(xo, XONAME[t[1]])
     elif k == "Str":
         c = xo.String
+    elif k == "A" and DECL[0] == "subclass":
+        # the array class is DECLARED (class statement with _itemtype / _shape / _order) instead of being made by indexing;
+        # C order: no _order for rank 1, "C" otherwise; Fortran order: "F"; any other order: the tuple
+        it = build(t[1])
+        rank = len(t[2])
+        data = {"_itemtype": it, "_shape": tuple(t[2])}
+        if tuple(t[3]) == tuple(range(rank)):
+            if rank > 1:
+                data["_order"] = "C"
+        elif tuple(t[3]) == tuple(reversed(range(rank))):
+            data["_order"] = "F"
+        else:
+            data["_order"] = tuple(t[3])
+        c = type("Decl" + tname(t), (xo.Array,), data)
     elif k == "A":
         it = build(t[1])
         ident = tuple(t[3]) == tuple(range(len(t[2])))
@@ -195,8 +209,11 @@ def build(t):
         c = type("Un" + tname(t), (xo.UnionRef,), {"_reftypes": [build(x) for x in t[1]]})
     else:
         raise ValueError(t)
-    _cache[t] = c
+    _cache[(t, DECL[0])] = c
     return c
+
+
+DECL = ["index"]  # how array classes are made: "index" (ItemType[shape]) or "subclass" (declared); a shard sets it for its process
 
 
 def twin(t):
@@ -212,7 +229,7 @@ def build_as(t, name):
 
     assert t[0] == "St"
     c = type(name, (xo.Struct,), {n: build(ft) for n, ft in t[1]})
-    _cache[t] = c
+    _cache[(t, DECL[0])] = c
     return c
 
 
